@@ -104,54 +104,61 @@ pth_hostile_count!(c17_pth_count_min, i32::MIN);
 pth_hostile_count!(c17_pth_count_max, i32::MAX);
 pth_hostile_count!(c17_pth_count_million, 1_000_000);
 
-/// SMX header (64 bytes) + object count 0 + checkpoint count 0/1
-macro_rules! smx_image {
-    ($name:ident, $nobj:expr, $ncp:expr, $len:expr, $objbytes:expr) => {
-        #[kani::proof]
-        #[kani::unwind(34)]
-        #[kani::stub(alloc::fmt::format, stub_format)]
-        #[kani::stub(insim_core::string::codepages::to_lossy_string, stub_to_lossy_string)]
-        #[kani::stub(insim_core::string::codepages::to_lossy_bytes, stub_to_lossy_bytes)]
-        fn $name() {
-            let mut img: [u8; $len] = kani::any();
-            img[0] = b'L'; img[1] = b'F'; img[2] = b'S'; img[3] = b'S'; img[4] = b'M'; img[5] = b'X';
-            // canonical file: spare bytes zero, track name NUL padded after its first NUL
-            img[12] = 0; img[13] = 0; img[14] = 0; img[15] = 0;
-            let mut k = 51; while k < 60 { img[k] = 0; k += 1; }
-            // track name: 3 symbolic non-NUL ASCII bytes, NUL padded (a symbolic name LENGTH does not close, DESIGN C11)
-            let mut k = 16; while k < 19 { kani::assume(img[k] != 0 && img[k] < 0x80); k += 1; }
-            let mut k = 19; while k < 48 { img[k] = 0; k += 1; }
-            img[60] = $nobj; img[61] = 0; img[62] = 0; img[63] = 0;
-            let o = 64 + $objbytes;
-            if $nobj == 1 {
-                // one object with 1 point and 1 triangle: counts at offset 64+16 and 64+20
-                img[64 + 16] = 1; img[64 + 17] = 0; img[64 + 18] = 0; img[64 + 19] = 0;
-                img[64 + 20] = 1; img[64 + 21] = 0; img[64 + 22] = 0; img[64 + 23] = 0;
-                // triangle spare
-                img[64 + 24 + 16 + 6] = 0; img[64 + 24 + 16 + 7] = 0;
-            }
-            img[o] = $ncp; img[o + 1] = 0; img[o + 2] = 0; img[o + 3] = 0;
-            let mut c = Cursor::new(&img[..]);
-            let r = Smx::read(&mut c);
-            match &r {
-                Ok(p) => {
-                    assert!(c.position() == $len, "C17:SMX reader consumes the whole image");
-                    assert!(p.objects.len() == $nobj && p.checkpoint_object_index.len() == $ncp, "C17:SMX counts as declared");
-                    let mut out = [0xAAu8; $len];
-                    let mut w = Cursor::new(&mut out[..]);
-                    assert!(p.write(&mut w).is_ok(), "C17:parsed SMX writes");
-                    assert!(w.position() == $len, "C17:written SMX has the same length");
-                    let i: usize = kani::any();
-                    kani::assume(i < $len);
-                    assert!(out[i] == img[i], "C17:written SMX bytes identical to the canonical bytes read");
-                    kani::cover!(true, "SMX image parsed");
-                }
-                Err(_) => assert!(false, "C17:well-formed SMX image rejected"),
-            }
-            std::mem::forget(r);
-        }
+/// SMX writer against the documented layout (the SMX READER does not close even for an empty file:
+/// after the pad/seek steps of the header CBMC no longer treats the count fields as constants and
+/// unrolls the nested object/point/triangle readers - 16 GB; DESIGN.md C17). One object with one point
+/// and one triangle, one checkpoint, every numeric field symbolic, 3-character track name.
+#[kani::proof]
+#[kani::unwind(40)]
+#[kani::stub(alloc::fmt::format, stub_format)]
+#[kani::stub(insim_core::string::codepages::to_lossy_bytes, stub_to_lossy_bytes)]
+fn c17_smx_write_layout() {
+    use insim_core::point::Point;
+    use insim_smx::{Argb, Object, ObjectPoint, Rgb, Triangle};
+    let hdr: [u8; 6] = kani::any();
+    let name = ascii_string::<3>();
+    let gc: [u8; 3] = kani::any();
+    let oc: [i32; 4] = kani::any();
+    let pt: [i32; 3] = kani::any();
+    let col: [u8; 4] = kani::any();
+    let tri: [u16; 3] = kani::any();
+    let cp: i32 = kani::any();
+    let nb = name.as_bytes();
+    let (n0, n1, n2) = (nb[0], nb[1], nb[2]);
+    let p = Smx {
+        game_version: hdr[0], game_revision: hdr[1], smx_version: hdr[2], dimensions: hdr[3], resolution: hdr[4], vertex_colours: hdr[5],
+        track: name,
+        ground_colour: Rgb { r: gc[0], g: gc[1], b: gc[2] },
+        objects: vec![Object {
+            center: Point { x: oc[0], y: oc[1], z: oc[2] }, radius: oc[3],
+            points: vec![ObjectPoint { xyz: Point { x: pt[0], y: pt[1], z: pt[2] }, colour: Argb { a: col[0], rgb: Rgb { r: col[1], g: col[2], b: col[3] } } }],
+            triangles: vec![Triangle { a: tri[0], b: tri[1], c: tri[2] }],
+        }],
+        checkpoint_object_index: vec![cp],
     };
+    let mut out = [0xAAu8; 128];
+    let mut w = Cursor::new(&mut out[..]);
+    let r = p.write(&mut w);
+    let ok = r.is_ok();
+    std::mem::forget(r);
+    assert!(ok, "C17:SMX value refused by the writer");
+    assert!(w.position() == 120, "C17:written SMX length (64 header + 48 object + 4 + 4)");
+    // reference image, field by field (SMX format description)
+    let mut e = [0u8; 120];
+    e[0] = b'L'; e[1] = b'F'; e[2] = b'S'; e[3] = b'S'; e[4] = b'M'; e[5] = b'X';
+    let mut k = 0; while k < 6 { e[6 + k] = hdr[k]; k += 1; }
+    e[16] = n0; e[17] = n1; e[18] = n2;
+    e[48] = gc[0]; e[49] = gc[1]; e[50] = gc[2];
+    e[60] = 1;
+    let mut k = 0; while k < 4 { let b = oc[k].to_le_bytes(); e[64 + 4 * k] = b[0]; e[65 + 4 * k] = b[1]; e[66 + 4 * k] = b[2]; e[67 + 4 * k] = b[3]; k += 1; }
+    e[80] = 1; e[84] = 1;
+    let mut k = 0; while k < 3 { let b = pt[k].to_le_bytes(); e[88 + 4 * k] = b[0]; e[89 + 4 * k] = b[1]; e[90 + 4 * k] = b[2]; e[91 + 4 * k] = b[3]; k += 1; }
+    e[100] = col[0]; e[101] = col[1]; e[102] = col[2]; e[103] = col[3];
+    let mut k = 0; while k < 3 { let b = tri[k].to_le_bytes(); e[104 + 2 * k] = b[0]; e[105 + 2 * k] = b[1]; k += 1; }
+    e[112] = 1;
+    let cb = cp.to_le_bytes(); e[116] = cb[0]; e[117] = cb[1]; e[118] = cb[2]; e[119] = cb[3];
+    let i: usize = kani::any();
+    kani::assume(i < 120);
+    assert!(out[i] == e[i], "C17:written SMX byte differs from the documented layout");
+    std::mem::forget(p);
 }
-smx_image!(c17_smx_image_0_0, 0, 0, 68, 0);
-smx_image!(c17_smx_image_0_1, 0, 1, 72, 0);
-smx_image!(c17_smx_image_1_1, 1, 1, 120, 48);
